@@ -23,6 +23,11 @@ NOT_DECIDED = ["return values; nested-call behaviour beyond the documented warni
 EXCEPTIONS = {"spawned_syscall:?-after-run": "the `?` after callback.run is reachable only for CallbackSystem::Empty, which holds no system to lose"}
 
 
+# ways of storing the system back into its slot: overwrite the Option in an existing slot, or insert a new slot
+PUT_BACK_CALLS = ("Option::replace", "Option::insert", "HashMap::insert", "VacantEntry::insert", "OccupiedEntry::insert", "Entry::insert",
+                  "Entry::insert_entry", "VacantEntry::insert_entry")
+
+
 def runs(body, names=("System::run",)):
     return [b for b, t, fr in body.iter_calls() if fr and lib.tail(mir.fn_name(fr), 2) in names]
 
@@ -95,12 +100,12 @@ def check(ctx):
         ctx.check(len(taken) == 1 and all(f.dominates(taken[0], r) for r in rn), "C17.b", "%s:node-emptied-with-take-before-run" % nm, f.loc(taken[0]) if taken else "",
                   "the stored system is moved out with Option::take before it runs", "the named system is not taken out of its node before the run")
         # put back: replace or insert with the same key
-        puts = [(b, t, lib.tail(mir.fn_name(fr), 2)) for b, t, fr in f.iter_calls() if fr and lib.tail(mir.fn_name(fr), 2) in ("Option::replace", "HashMap::insert")
+        puts = [(b, t, lib.tail(mir.fn_name(fr), 2)) for b, t, fr in f.iter_calls() if fr and lib.tail(mir.fn_name(fr), 2) in PUT_BACK_CALLS
                 and any(f.dominates(r, b) for r in rn)]
         w = lib.path_to_return_avoiding(f, [lib.call_target(f, r) for r in rn], [p[0] for p in puts])
         ctx.check(bool(puts) and w is None, "C17.b", "%s:put-back-on-every-path" % nm, f.loc(rn[0]) if rn else "", "system is put back (replace / insert) on every path after the run",
                   "a path returns after the run without putting the system back", lib.render_path(f, w) if w else None)
-        gms = [(b, t) for b, t, fr in f.iter_calls() if fr and lib.tail(mir.fn_name(fr), 2) in ("HashMap::get_mut", "HashMap::get")]
+        gms = [(b, t) for b, t, fr in f.iter_calls() if fr and lib.tail(mir.fn_name(fr), 2) in ("HashMap::get_mut", "HashMap::get", "HashMap::entry")]
         keys = set()
         for b, t in gms:
             keys.add(frozenset(tuple(o) for o in origins(f, t["args"][1])))
